@@ -4,7 +4,7 @@
     code before it rejects a documented configuration. *)
 From Coq Require Import List NArith Bool Permutation.
 Import ListNotations.
-From LI Require Import Base.StrOps Parser.Cfg Parser.CfgCheck Parser.CfgProofs.
+From LI Require Import Base.StrOps Parser.Cfg Parser.CfgCheck Parser.CfgProofs Parser.CfgSpecProofs.
 Open Scope N_scope.
 
 (** an accepted configuration: the default locale is first, there is no duplicate, every listed
@@ -56,11 +56,12 @@ Theorem C19_not_found : forall fmt existing stems tried,
   exists s, In s stems /\ tried = map (with_ext s) (file_exts fmt) /\ forall t, In t tried -> ~ In t existing.
 Proof. exact read_files_not_found. Qed.
 
-(** Bridge to the executable predicate of the correspondence: full statement, not proved
-    (normal_form / paths_ok / error_genuine of CfgCheck.v are boolean re-statements of the
-    theorems above; their connection is evaluated on every generated case, not proved). *)
-Definition C19_spec_statement : Prop :=
-  forall c, in_domain c = true -> k_malformed c = false -> spec_C19 c (model_impl c) = true.
+(** Bridge to the executable predicate of the correspondence: inside the modelled domain, for a
+    well-typed table, the model's answer (normalised configuration and tracked files, or the error)
+    satisfies [spec_C19] *)
+Theorem C19_spec : forall c,
+  in_domain c = true -> k_malformed c = false -> spec_C19 c (model_impl c) = true.
+Proof. exact spec_C19_holds. Qed.
 
 (** the code before the repair: `default = "en"`, `locales = ["it"]`, `inherits = { it = "en" }`
     is a configuration the documentation accepts; it was rejected as `unknown locale "en"` *)
